@@ -1317,6 +1317,39 @@ def p_read_own_object(rng, s, b):
 
 
 @M.mutator("C09")
+def p_filter_reads_own_object(rng, s, b):
+    """A filter clause (at any nesting level) compares $_item with a path on the object promise the pipeline itself
+    writes, spelled as a global reference and TYPED so that reading the own object is the clause's only fault."""
+    c = _pick_instr(rng, s, b, "app", lambda pl, ins, st, info: ins[2]["step"] is not None and ins[2]["step"][0] == "filter" and info[0] is not None)
+    if c is None:
+        return None
+    pl, ins, before, info, final = c
+    ctx, own, sc, r = pipe_ctx(s, pl), pl["promise"][1], ins[1], info[0]
+    T = find(s["promises"], own)["type"][1]
+    own_paths = [([], promise_type(s, ctx, own, []))] + [(pp, promise_type(s, ctx, own, pp)) for pp, _ in all_paths(s, T, False)]
+    own_paths = [(pp, ty_str(t)) for pp, t in own_paths if t is not None]
+    pos = _cmp_positions(ins[2]["step"][1])
+    rng.shuffle(pos)
+    for lst, i, depth in pos:
+        _, l, op, rr = lst[i]
+        for keep, side in ((l, 3), (rr, 1)):
+            if keep[0] != "item":
+                continue
+            tk = fop_type(s, ctx, own, before, sc, r, keep)
+            if tk is None:
+                continue
+            fits = [(pp, o2) for (pp, t2) in own_paths for o2 in OPS
+                    if (py_cmp(tk, o2, t2) if side == 3 else py_cmp(t2, o2, tk)) and not _kf_cmp(tk, o2, t2)]
+            if not fits:
+                continue
+            pp, o2 = rng.choice(fits)
+            o = ("prom", ("promise", own), list(pp))
+            lst[i] = ("cmp", keep, o2, o) if side == 3 else ("cmp", o, o2, keep)
+            return "filter clause at depth %d compares $_item with the pipeline's own object (well typed)" % depth
+    return None
+
+
+@M.mutator("C09")
 def p_write_settable_attribute(rng, s, b):
     pls = _pipes(rng, s, b)
     if not pls:
